@@ -1,3 +1,4 @@
 //! h-runtime: in-process program runtime (real `entry()` functions executed natively with syscall
 //! stubs) and the instruction-level property drivers (binaries under src/bin/).
 pub mod util;
+pub mod runtime;
